@@ -13,15 +13,7 @@ PARTIAL = ['intermediate graphs are not compared (the property does not determin
 
 
 def known_guard(case):
-    """generator guards of recorded known findings (K1: nodes outside the potential reach of the start nodes)"""
-    pot = dsgcase.potential_nodes(case)
-    if pot != dsgcase.all_ids(case):
-        return 'K1'
-    if dsgcase.self_conflicting_option(case):
-        return 'K7'
-    if dsgcase.dead_end_prefix(case):
-        return 'K8'
-    return None
+    return '+'.join(sorted(dsgcase.guards(case))) or 'none'
 
 
 def batches(tier, seed):
@@ -56,8 +48,4 @@ def shrink_candidates(case):
     yield from dsgcase.shrink_graph(case)
 
 
-def match_known(case, fail, known):
-    for k in known:
-        if k.get('guard') and known_guard({kk: v for kk, v in case.items() if not kk.startswith('_')}) == k['guard']:
-            return k
-    return None
+match_known = dsgcase.match_known
